@@ -241,6 +241,16 @@ class Engine:
                     continue
                 outs.extend(self.setattr(x, obj, tgt.attr, val))
             return outs
+        if isinstance(tgt, ast.Subscript) and isinstance(tgt.value, ast.Name) and self.intr.is_local_container(st, tgt.value.id):
+            # a container created in this function and held only in a local: value semantics (rebind the local)
+            outs = []
+            for (y, key) in self.ev_slice(tgt.slice, st):
+                if isinstance(key, Raise):
+                    outs.append((y, ("raise", key.exc)))
+                    continue
+                y.loc[tgt.value.id] = self.intr.local_setitem(y, y.loc[tgt.value.id], key, val)
+                outs.append((y, None))
+            return outs
         if isinstance(tgt, ast.Subscript):
             outs = []
             for (x, obj) in self.ev(tgt.value, st):
@@ -706,6 +716,16 @@ class Engine:
         raise Unsupported("starred expression outside call")
 
     def e_Call(self, e, st):
+        if (isinstance(e.func, ast.Attribute) and isinstance(e.func.value, ast.Name)
+                and e.func.attr in ("append", "extend") and self.intr.is_local_container(st, e.func.value.id)):
+            outs = []
+            for (y, args, kwargs) in self.ev_args(e, st):
+                if isinstance(args, Raise):
+                    outs.append((y, args))
+                    continue
+                y.loc[e.func.value.id] = self.intr.local_method(y, y.loc[e.func.value.id], e.func.attr, args)
+                outs.append((y, Const(None)))
+            return outs
         # super() zero-arg
         if isinstance(e.func, ast.Name) and e.func.id == "super" and not e.args:
             fr = st.frames[-1]
@@ -876,6 +896,7 @@ class Engine:
     def store_field(self, st, obj, name, val):
         rec = st.rec(obj)
         old = rec.fields.get(name)
+        val = self.intr.on_field_store(self, st, obj, name, val)
         rec.fields[name] = val
         st.event("field-store", obj.addr, name, len(st.frames) and st.frames[-1].qualname)
         for h in self.hooks:
